@@ -291,9 +291,10 @@ func C03Atoms() []wk.RQ {
 	return []wk.RQ{{Op: "all"}, {Op: "tagged", Key: "#s", Val: "x"}, {Op: "tagged", Key: "#s", Val: "y"}, {Op: "keyed", Key: "#s"}, {Op: "keyed", Key: "@t"}}
 }
 
-// C03AtomsDeep are the atoms of the depth-3 menus (pruned).
+// C03AtomsDeep are the atoms of the depth-3 menus at states (all five; the
+// pruning is in where they are run: the states of the fixpoint layers).
 func C03AtomsDeep() []wk.RQ {
-	return []wk.RQ{{Op: "all"}, {Op: "tagged", Key: "#s", Val: "x"}, {Op: "keyed", Key: "#s"}, {Op: "keyed", Key: "@t"}}
+	return C03Atoms()
 }
 
 var QueryTypes = []b6.FeatureType{b6.FeatureTypePoint, b6.FeatureTypePath, b6.FeatureTypeArea, b6.FeatureTypeRelation}
